@@ -434,6 +434,7 @@ func init() {
 		"sort.Strings":       sortStrings,
 		"sort.Slice":         sortSlice,
 		"sort.SliceStable":   sortSlice, // the insertion sort below is stable
+		"sort.SliceIsSorted": sortSliceIsSorted,
 		"strings.Index":      stringsIndex,
 		"strings.IndexByte":  stringsIndexByte,
 		"bytes.IndexByte":    bytesIndexByte,
@@ -856,6 +857,22 @@ func sortSlice(e *Exec, fn *ssa.Function, a []Value) (Value, *GoPanic) {
 		}
 	}
 	return nil, nil
+}
+
+// sortSliceIsSorted: as package sort does it (from the end: less(i, i-1) for i = n-1 .. 1).
+func sortSliceIsSorted(e *Exec, fn *ssa.Function, a []Value) (Value, *GoPanic) {
+	s := a[0].(*IfaceV).V.(*SliceV)
+	less := a[1].(*FuncV)
+	for i := s.Len - 1; i > 0; i-- {
+		r, pan := e.invoke(deferred{fn: less, args: []Value{e.tb.Const(64, uint64(i)), e.tb.Const(64, uint64(i-1))}})
+		if pan != nil {
+			return nil, pan
+		}
+		if e.branch(r.(*Term)) {
+			return e.tb.F, nil
+		}
+	}
+	return e.tb.T, nil
 }
 
 // ---- strings / bytes ----
